@@ -127,10 +127,10 @@ Section Filters.
       end
     else Some [tk].
 
-  Inductive filter :=
+  Inductive tfilter :=
   | FLower | FAsciiFold | FRemoveLong (limit : N) | FAlnumOnly | FStop (words : list (list cp)) | FStem | FSplit.
 
-  Definition filter_fn (fl : filter) (tk : token) : option (list token) :=
+  Definition filter_fn (fl : tfilter) (tk : token) : option (list token) :=
     match fl with
     | FLower => Some [with_text tk (lower_text (t_text tk))]
     | FAsciiFold => Some [with_text tk (fold_text (t_text tk))]
@@ -141,16 +141,16 @@ Section Filters.
     | FSplit => split_token tk
     end.
 
-  Definition apply_filter (fl : filter) (ts : list token) : option (list token) := omap_flat (filter_fn fl) ts.
+  Definition apply_filter (fl : tfilter) (ts : list token) : option (list token) := omap_flat (filter_fn fl) ts.
 
-  Fixpoint apply_chain (fs : list filter) (ts : list token) : option (list token) :=
+  Fixpoint apply_chain (fs : list tfilter) (ts : list token) : option (list token) :=
     match fs with
     | [] => Some ts
     | fl :: r => match apply_filter fl ts with Some ts' => apply_chain r ts' | None => None end
     end.
 
   (* a filter that only drops tokens *)
-  Definition drop_only (fl : filter) : bool :=
+  Definition drop_only (fl : tfilter) : bool :=
     match fl with FRemoveLong _ | FAlnumOnly | FStop _ => true | _ => false end.
 
   Lemma with_text_same tk t : same_span tk (with_text tk t).
